@@ -4,7 +4,12 @@ package main
 //   case line:  <seed> <c2b bytes> <b2c bytes> <order> <cchunk> <bchunk>
 //     order: c = the client finishes first and the backend answers only after it has seen the client's end-of-stream;
 //            b = the backend finishes first, the client sends afterwards;  x = both send at the same time
+//            p = lockstep: the client sends one chunk and waits until the backend has received it, the backend answers with
+//                one chunk and the client waits for it, and so on (a request/response protocol); a chunk that does not
+//                arrive within 1.5 s (times the load factor) while the connection is open is a stall
 //     chunks: maximal write size of each side (1 = byte by byte with pauses)
+//     optional: pause between writes (ms), idle timeout of the service (ms), backend pause per 256 KiB read (ms),
+//               pause before the backend starts to read (ms)
 //   data: byte i of a stream is (i*131 + seed*17 + i/256) mod 256 (c2b) resp. (i*137 + seed*29 + i/256 + 7) mod 256 (b2c)
 //   output: c2b=<len>:<fnv32> eof=<1|0>  b2c=<len>:<fnv32> eof=<1|0>  upstream=<total>/<destroyed>/<active>
 
@@ -60,9 +65,12 @@ func writeChunks(c net.Conn, d []byte, chunk int) {
 func runC05(line string) string {
 	var seed, nc, nb, cch, bch int
 	var order string
-	var paceMs, idleMs, bslowMs int // optional: pause between writes, idle timeout of the service, backend pause per 256 KiB read
-	fmt.Sscanf(line, "%d %d %d %s %d %d %d %d %d", &seed, &nc, &nb, &order, &cch, &bch, &paceMs, &idleMs, &bslowMs)
+	var paceMs, idleMs, bslowMs, bstartMs int
+	fmt.Sscanf(line, "%d %d %d %s %d %d %d %d %d %d", &seed, &nc, &nb, &order, &cch, &bch, &paceMs, &idleMs, &bslowMs, &bstartMs)
 	readAll := func(c net.Conn) ([]byte, error) {
+		if bstartMs > 0 {
+			time.Sleep(time.Duration(bstartMs) * time.Millisecond)
+		}
 		if bslowMs == 0 {
 			return io.ReadAll(c)
 		}
@@ -104,15 +112,24 @@ func runC05(line string) string {
 		eof bool
 	}
 	bres := make(chan res, 1)
+	bconn := make(chan net.Conn, 1)
 	cdata, bdata := c05Data(seed, nc, false), c05Data(seed, nb, true)
 	go func() { // the backend
 		c, err := ln.Accept()
 		if err != nil {
 			bres <- res{}
+			bconn <- nil
+			return
+		}
+		if order == "p" {
+			bconn <- c // driven in lockstep by the client side below
 			return
 		}
 		defer c.Close()
 		tc := c.(*net.TCPConn)
+		if bstartMs > 0 {
+			tc.SetReadBuffer(128 << 10) // fixed (no autotuning): what it does not read stays in the relay
+		}
 		c.SetDeadline(time.Now().Add(time.Duration(float64(10*time.Second) * loadFactor)))
 		switch order {
 		case "c": // read everything first, then answer
@@ -160,6 +177,23 @@ func runC05(line string) string {
 	c.SetDeadline(time.Now().Add(time.Duration(float64(10*time.Second) * loadFactor)))
 	var cgot []byte
 	var cerr error
+	if order == "p" {
+		bc := <-bconn
+		if bc == nil {
+			c.Close()
+			within(3*time.Second, func() { p.Stop() })
+			return "NOT-ACCEPTED"
+		}
+		out := c05Lockstep(c, bc, cdata, bdata, cch, bch)
+		c.Close()
+		bc.Close()
+		waitFor(3*time.Second, func() bool {
+			return sp.counter("upstream.cx_total") == 1 && sp.counter("upstream.cx_destroy_total") == 1 && sp.gauge("upstream.cx_active") == 0
+		})
+		up := fmt.Sprintf("%d/%d/%d", sp.counter("upstream.cx_total"), sp.counter("upstream.cx_destroy_total"), int64(sp.gauge("upstream.cx_active")))
+		within(3*time.Second, func() { p.Stop() })
+		return out + " upstream=" + up
+	}
 	switch order {
 	case "c":
 		write(c, cdata, cch)
@@ -191,6 +225,81 @@ func runC05(line string) string {
 	return fmt.Sprintf("c2b=%s eof=%d b2c=%s eof=%d upstream=%s", sumOf(b.got), bi(b.eof), sumOf(cgot), bi(cerr == nil), up)
 }
 
+// c05Lockstep: chunks alternate; each must have arrived at the other end before the next is sent
+func c05Lockstep(c, bc net.Conn, cdata, bdata []byte, cch, bch int) string {
+	limit := func(k int) int {
+		if k > 20000 {
+			return 20000 // a chunk must fit the socket buffers: the same goroutine writes it and then reads it
+		}
+		return k
+	}
+	cch, bch = limit(cch), limit(bch)
+	// at most 4000 round trips per direction
+	if m := len(cdata)/4000 + 1; cch < m {
+		cch = m
+	}
+	if m := len(bdata)/4000 + 1; bch < m {
+		bch = m
+	}
+	wait := time.Duration(float64(1500*time.Millisecond) * loadFactor)
+	var bgot, cgot []byte
+	stall := ""
+	pass := func(from, to net.Conn, d []byte, got *[]byte, name string) bool {
+		if _, err := from.Write(d); err != nil {
+			stall = fmt.Sprintf(" WRITE-FAILED %s at %d", name, len(*got))
+			return false
+		}
+		buf := make([]byte, len(d))
+		to.SetReadDeadline(time.Now().Add(wait))
+		n, err := io.ReadFull(to, buf)
+		*got = append(*got, buf[:n]...)
+		if err != nil {
+			stall = fmt.Sprintf(" STALL %s: %d of %d bytes of the chunk at offset %d arrived", name, n, len(d), len(*got)-n)
+			return false
+		}
+		return true
+	}
+	ci, bi := 0, 0
+	for ci < len(cdata) || bi < len(bdata) {
+		if ci < len(cdata) {
+			k := cch
+			if k > len(cdata)-ci {
+				k = len(cdata) - ci
+			}
+			if !pass(c, bc, cdata[ci:ci+k], &bgot, "c2b") {
+				break
+			}
+			ci += k
+		}
+		if bi < len(bdata) {
+			k := bch
+			if k > len(bdata)-bi {
+				k = len(bdata) - bi
+			}
+			if !pass(bc, c, bdata[bi:bi+k], &cgot, "b2c") {
+				break
+			}
+			bi += k
+		}
+	}
+	ceof, beof := 0, 0
+	if stall == "" {
+		// the client finishes: the backend sees end-of-stream, and only then finishes itself
+		one := make([]byte, 1)
+		c.(*net.TCPConn).CloseWrite()
+		bc.SetReadDeadline(time.Now().Add(wait))
+		if n, err := bc.Read(one); n == 0 && err == io.EOF {
+			beof = 1
+		}
+		bc.(*net.TCPConn).CloseWrite()
+		c.SetReadDeadline(time.Now().Add(wait))
+		if n, err := c.Read(one); n == 0 && err == io.EOF {
+			ceof = 1
+		}
+	}
+	return fmt.Sprintf("c2b=%s eof=%d b2c=%s eof=%d%s", sumOf(bgot), beof, sumOf(cgot), ceof, stall)
+}
+
 func init() {
 	register("c05", func() {
 		cases, impl := create("cases.txt"), create("impl.txt")
@@ -200,7 +309,10 @@ func init() {
 			lines = readLines(*fIn)
 		} else {
 			r := newRng(*fSeed)
-			lines = append(lines, "7 60 60 x 1 1 50 2000 0", "9 6291456 10 b 1048576 10 0 0 40")
+			lines = append(lines, "7 60 60 x 1 1 50 2000 0", "9 6291456 10 b 1048576 10 0 0 40",
+				"3 7 5 p 1 1", "11 16385 3 p 16384 1", "5 40000 16385 p 5000 16384",
+				// the backend has finished and starts to read late, longer than the idle timeout: what piles up in the relay must still arrive
+				"13 8388608 0 b 1048576 10 0 400 0 1200")
 			sizes := []int{0, 1, 2, 100, 4095, 16383, 16384, 16385, 40000, 100000}
 			for i := 0; i < *fN; i++ {
 				nc, nb := sizes[r.intn(len(sizes))], sizes[r.intn(len(sizes))]
@@ -220,7 +332,7 @@ func init() {
 						return 1 << 20
 					}
 				}
-				lines = append(lines, fmt.Sprintf("%d %d %d %s %d %d", r.intn(1000), nc, nb, []string{"c", "b", "x"}[r.intn(3)], ch(nc), ch(nb)))
+				lines = append(lines, fmt.Sprintf("%d %d %d %s %d %d", r.intn(1000), nc, nb, []string{"c", "b", "x", "p"}[r.intn(4)], ch(nc), ch(nb)))
 			}
 		}
 		for _, l := range lines {
